@@ -3,9 +3,7 @@
    Result line: N <n> { B ... }*n          (same batch syntax)   |   ERR (a consolidated batch fails Create)   |   REJECT (hint not admissible) *)
 open Model
 open Conv
-
-let rec z_of_int i = if i = 0 then Z0 else if i > 0 then Zpos (pos_of_int i) else Zneg (pos_of_int (-i))
-let int_of_z = function Z0 -> 0 | Zpos p -> int_of_pos p | Zneg p -> - (int_of_pos p)
+open Convz
 
 let parse (toks : string array) =
   let pos = ref 0 in
